@@ -234,8 +234,15 @@ impl anstyle_parse::Perform for WinconCapture {
                         }
                     },
                     (State::Underline, 0) => {
-                        style =
-                            style.effects(style.get_effects().remove(anstyle::Effects::UNDERLINE));
+                        style = style.effects(
+                            style
+                                .get_effects()
+                                .remove(anstyle::Effects::UNDERLINE)
+                                .remove(anstyle::Effects::DOUBLE_UNDERLINE)
+                                .remove(anstyle::Effects::CURLY_UNDERLINE)
+                                .remove(anstyle::Effects::DOTTED_UNDERLINE)
+                                .remove(anstyle::Effects::DASHED_UNDERLINE),
+                        );
                     }
                     (State::Underline, 1) => {
                         // underline already set
